@@ -35,6 +35,10 @@ type Conn struct {
 	nOut     int
 	nIn      int
 	reader   uint64 // goroutine that read from this connection first
+	wlimit   int    // stream: bytes the peer's window still accepts (-1: no limit)
+	wlimited bool
+	wdl      time.Time
+	wnotify  chan struct{}
 
 	Local, Remote Addr
 	// Out is called in the writer's goroutine with a private copy of the bytes and the
@@ -45,7 +49,7 @@ type Conn struct {
 }
 
 func (w *World) NewConn(name string, packet bool, local, remote Addr) *Conn {
-	return &Conn{w: w, Name: name, Packet: packet, notify: make(chan struct{}, 1), closedCh: make(chan struct{}), Local: local, Remote: remote}
+	return &Conn{w: w, Name: name, Packet: packet, notify: make(chan struct{}, 1), wnotify: make(chan struct{}, 1), closedCh: make(chan struct{}), Local: local, Remote: remote}
 }
 
 // Deliver makes b readable (driver only).
@@ -169,27 +173,78 @@ func (c *Conn) Read(p []byte) (int, error) {
 	}
 }
 
-func (c *Conn) Write(p []byte) (int, error) {
+// SetWriteLimit (driver only): a stream peer that has stopped reading accepts n more bytes (its
+// receive window and the socket buffers), then writes block until their deadline; n < 0 lifts the limit.
+func (c *Conn) SetWriteLimit(n int) {
 	c.mu.Lock()
-	if c.closed {
-		c.mu.Unlock()
-		return 0, net.ErrClosed
-	}
-	if c.rerr != nil {
-		e := c.rerr
-		c.mu.Unlock()
-		return 0, e
-	}
-	i := c.nOut
-	c.nOut++
-	out := c.Out
+	c.wlimited, c.wlimit = n >= 0, n
 	c.mu.Unlock()
-	b := append([]byte(nil), p...)
-	c.w.Log(c.Name+">", "tx", b, "", 0)
-	if out != nil {
-		out(i, b)
+	select {
+	case c.wnotify <- struct{}{}:
+	default:
 	}
-	return len(p), nil
+}
+
+func (c *Conn) Write(p []byte) (int, error) {
+	written := 0
+	for {
+		c.mu.Lock()
+		if c.closed {
+			c.mu.Unlock()
+			return written, net.ErrClosed
+		}
+		if c.rerr != nil {
+			e := c.rerr
+			c.mu.Unlock()
+			return written, e
+		}
+		k := len(p) - written
+		if c.wlimited && !c.Packet && k > c.wlimit {
+			k = c.wlimit
+		}
+		if k > 0 || len(p) == 0 {
+			if c.wlimited && !c.Packet {
+				c.wlimit -= k
+			}
+			i := c.nOut
+			c.nOut++
+			out := c.Out
+			c.mu.Unlock()
+			b := append([]byte(nil), p[written:written+k]...)
+			c.w.Log(c.Name+">", "tx", b, "", 0)
+			if out != nil {
+				out(i, b)
+			}
+			written += k
+			if written == len(p) {
+				return written, nil
+			}
+			continue
+		}
+		// the window is full: like a socket, block until it opens, the deadline passes or the connection ends
+		dl := c.wdl
+		c.mu.Unlock()
+		var tc <-chan time.Time
+		var tm *time.Timer
+		if !dl.IsZero() {
+			d := time.Until(dl)
+			if d <= 0 {
+				c.w.Log(c.Name+">", "tx-timeout", nil, "", int64(written))
+				return written, errTimeout
+			}
+			tm = time.NewTimer(d)
+			tc = tm.C
+		}
+		select {
+		case <-c.wnotify:
+		case <-tc:
+		case <-c.closedCh:
+		}
+		if tm != nil {
+			tm.Stop()
+		}
+		Resume("simrt:write-wake:" + c.Name)
+	}
 }
 
 func (c *Conn) Close() error {
@@ -210,9 +265,9 @@ func (c *Conn) Close() error {
 }
 func (c *Conn) LocalAddr() net.Addr                { return c.Local }
 func (c *Conn) RemoteAddr() net.Addr               { return c.Remote }
-func (c *Conn) SetDeadline(t time.Time) error      { return c.SetReadDeadline(t) }
+func (c *Conn) SetDeadline(t time.Time) error      { c.SetWriteDeadline(t); return c.SetReadDeadline(t) }
 func (c *Conn) SetReadDeadline(t time.Time) error  { c.mu.Lock(); c.rdl = t; c.mu.Unlock(); return nil }
-func (c *Conn) SetWriteDeadline(t time.Time) error { return nil }
+func (c *Conn) SetWriteDeadline(t time.Time) error { c.mu.Lock(); c.wdl = t; c.mu.Unlock(); return nil }
 
 // Listener hands accepted conns to the gateway.
 type Listener struct {
